@@ -98,6 +98,37 @@ theorem seeded_ops_leave_global_rng (ops : List Op) (s : State)
       · exact h1
     · exact hs
 
+/-- interleaving unrelated calls: a history none of whose calls has the cell (or an object holding it) in a write slot leaves it
+exactly as it was — whatever else the calls do, in whatever order and number -/
+theorem unrelated_calls_preserve_arguments (tbl : List Gen.EffRow) (ops : List Op) (s : State) (c : Cell)
+    (halloc : ∀ op ∈ ops, op.res ≠ some c)
+    (hunrel : ∀ pre op post, ops = pre ++ op :: post → c ∉ writeCells tbl (run tbl s pre) op) :
+    (run tbl s ops).val c = s.val c := by
+  apply Classical.byContradiction; intro h
+  obtain ⟨pre, op, post, he, hb⟩ := caller_cells_frame tbl ops s c halloc h
+  exact hunrel pre op post he ((mem_writeCells tbl _ op c).mpr hb)
+
+/-- in particular a history of calls whose rows have no write site at all (every function of the table outside the documented
+in-place list) changes no cell that existed before, nor the global generator when none of them is a documented unseeded function -/
+theorem pure_calls_change_nothing (ops : List Op) (s : State) (c : Cell)
+    (halloc : ∀ op ∈ ops, op.res ≠ some c)
+    (hpure : ∀ op ∈ ops, ∃ r, row? Gen.effTable op.fn = some r ∧ r.writes = [] ∧ r.globalRng = false) :
+    (run Gen.effTable s ops).val c = s.val c ∧ (run Gen.effTable s ops).rng = s.rng := by
+  constructor
+  · apply unrelated_calls_preserve_arguments _ _ _ _ halloc
+    intro pre op post he hmem
+    obtain ⟨r, hr, hw, _⟩ := hpure op (by rw [he]; simp)
+    rw [mem_writeCells] at hmem
+    obtain ⟨b, _, hs, _⟩ := hmem
+    simp only [writeSlots, hr, hw, List.map_nil] at hs
+    by_cases hg : (inplaceGated.contains op.fn && !op.inplace) = true
+    · rw [if_pos hg] at hs; exact absurd hs List.not_mem_nil
+    · rw [if_neg hg] at hs; exact absurd hs List.not_mem_nil
+  · apply seeded_ops_leave_global_rng
+    intro op hop
+    obtain ⟨r, hr, _, hg⟩ := hpure op hop
+    exact ⟨r, hr, Or.inr hg⟩
+
 /-- the cached coordinate vectors always equal `arange(n) − ⌊n/2⌋`: nothing in the library writes them, so the invariant
 survives every history (lookups, insertions and evictions included) -/
 theorem cache_invariant (ops : List Op) (s : State) (hs : CacheOK s)
